@@ -72,6 +72,7 @@ type twoPass struct {
 	gen     func(t *rapid.T) *flowCase
 	judge   func(t *rapid.T, c *flowCase, res *native.Result)
 	pre     func(t *rapid.T, c *flowCase) // optional: judged before (and without) the native result
+	unit    func(c *flowCase) native.Unit // optional: how a case is rendered natively (default c.unit())
 	opt     native.Options
 	cache   map[string]*native.Result
 	rec     *core.Recorder
@@ -80,6 +81,9 @@ type twoPass struct {
 
 func (tp *twoPass) run(t *testing.T) {
 	tp.cache = map[string]*native.Result{}
+	if tp.unit == nil {
+		tp.unit = func(c *flowCase) native.Unit { return c.unit() }
+	}
 	var units []native.Unit
 	seen := map[string]bool{}
 	rapidSetup(tp.checks, tp.salt)
@@ -87,7 +91,7 @@ func (tp *twoPass) run(t *testing.T) {
 		c := tp.gen(rt)
 		if !seen[c.Key] {
 			seen[c.Key] = true
-			units = append(units, c.unit())
+			units = append(units, tp.unit(c))
 		}
 	})
 	if t.Failed() {
@@ -134,7 +138,7 @@ func (tp *twoPass) run(t *testing.T) {
 		if res == nil {
 			tp.nsingle++
 			dir := filepath.Join(env.Out, fmt.Sprintf("native-%s-%d-single-%d", tp.id, env.Shard, tp.nsingle))
-			m, err := native.RunBatch(dir, []native.Unit{c.unit()}, tp.opt)
+			m, err := native.RunBatch(dir, []native.Unit{tp.unit(c)}, tp.opt)
 			if err != nil || m[c.Key] == nil || m[c.Key].BuildErr != "" {
 				rt.Skip("native build failed while shrinking")
 			}
